@@ -942,10 +942,17 @@ class UTMITranslator(Elaboratable):
         dir_based_start = dir_rising_edge & self.ulpi.nxt.i
 
 
-        with m.If(~self.ulpi.dir.i | rxevent_decoder.rx_stop):
+        # We look at the RxCmd itself rather than at the event decoder's (registered) start/stop strobes:
+        # those arrive a cycle too late for a data byte that directly follows the RxCmd, and they compare
+        # against the previous RxCmd, whose RxActive bit is stale once a receive was ended by DIR dropping.
+        rxcmd_present   = past_dir & self.ulpi.dir.i & ~self.ulpi.nxt.i & \
+                          ~rxevent_decoder.register_operation_in_progress
+        rxcmd_rx_active = self.ulpi.data.i[4]
+
+        with m.If(~self.ulpi.dir.i | (rxcmd_present & ~rxcmd_rx_active)):
             # TODO: this should probably also trigger if RxError
             m.d.usb += self.rx_active.eq(0)
-        with m.Elif(dir_based_start | rxevent_decoder.rx_start):
+        with m.Elif(dir_based_start | (rxcmd_present & rxcmd_rx_active)):
             m.d.usb += self.rx_active.eq(1)
 
 
